@@ -206,51 +206,50 @@ Section BlasProofs.
   Qed.
 
   (* ---------------------------------------------------------------- dsyrk / dsyr2k *)
-  (* NOTE the hypothesis rm_s1 A = rm_s2 A: the wrapper passes k = A->size1 for
-     NoTrans (A->size2 for Trans), which is the row count n of op(A), not its
-     column count k; for a non-square A the call computes something else - see
-     blas_dsyrk_kdim_refuted / blas_dsyr2k_kdim_refuted below. *)
-  Theorem flag_swap_dsyrk_square u t alpha beta (A C : rmat) :
+  (* C is n x n, op(A) (and op(B)) n x k with arbitrary k: the wrapper passes n = C->size1 and
+     k = A->size2 (NoTrans) / A->size1 (Trans), the column count of op(A). *)
+  Theorem flag_swap_dsyrk u t alpha beta (A C : rmat) :
     uploflag u -> transflag t -> wfm A -> wfm C ->
-    rm_s1 A = rm_s2 A -> rm_s1 C = rm_s1 A -> rm_s2 C = rm_s1 A ->
+    rm_s1 C = rm_s2 C -> rm_s1 C = (if is_tr t then rm_s2 A else rm_s1 A) ->
     fff_call fff_blas_dsyrk_call (env_dsyrk R u t alpha A beta C)
     = Some (OpC, doc_dsyrk R r0 radd rmul u t alpha A beta C).
   Proof.
     intros Hu Ht HA HC. unwf HA tA lA pA1 pA2. unwf HC tC lC pC1 pC2.
-    flagcases Hu; flagcases Ht; intros Sq SC1 SC2;
+    flagcases Hu; flagcases Ht; cbn [is_tr cflag_eqb negb]; intros SqC SC;
       reduce_call; rewrite tA, tC;
       rewrite !ld_ok_true by lia; cbn [andb fr_out fr_ld fr_m fr_n fr_val];
       unfold doc_dsyrk, doc_tab; cbn [is_up is_tr cflag_eqb negb];
       f_equal; f_equal;
       replace (fstore (rm_s2 C) (rm_s1 C) (rm_s1 C)) with (fstore (rm_s2 C) (rm_s2 C) (rm_s1 C))
-        by (rewrite SC2, SC1; reflexivity);
+        by (rewrite SqC; reflexivity);
       apply fstore_rowmajor; try exact lC;
       intros i j Hi Hj; rewrite in_tri_swap; cbn [negb]; rewrite (fent_rent C) by exact tC;
       (destruct (in_tri _ i j); [|reflexivity]);
       apply (f_equal (fun z => alpha * z + beta * rent C i j));
-      unfold BlasModel.mmul; rewrite <- ?Sq; apply sum_n_ext; intros l Hl;
+      unfold BlasModel.mmul; apply sum_n_ext; intros l Hl;
       unfold BlasModel.opt, BlasModel.tp; rewrite !fent_rent by congruence; ring.
   Qed.
 
-  Theorem flag_swap_dsyr2k_square u t alpha beta (A B C : rmat) :
+  Theorem flag_swap_dsyr2k u t alpha beta (A B C : rmat) :
     uploflag u -> transflag t -> wfm A -> wfm B -> wfm C ->
-    rm_s1 A = rm_s2 A -> rm_s1 B = rm_s1 A -> rm_s2 B = rm_s1 A -> rm_s1 C = rm_s1 A -> rm_s2 C = rm_s1 A ->
+    rm_s1 B = rm_s1 A -> rm_s2 B = rm_s2 A ->
+    rm_s1 C = rm_s2 C -> rm_s1 C = (if is_tr t then rm_s2 A else rm_s1 A) ->
     fff_call fff_blas_dsyr2k_call (env_dsyr2k R u t alpha A B beta C)
     = Some (OpC, doc_dsyr2k R r0 radd rmul u t alpha A B beta C).
   Proof.
     intros Hu Ht HA HB HC. unwf HA tA lA pA1 pA2. unwf HB tB lB pB1 pB2. unwf HC tC lC pC1 pC2.
-    flagcases Hu; flagcases Ht; intros Sq SB1 SB2 SC1 SC2;
+    flagcases Hu; flagcases Ht; cbn [is_tr cflag_eqb negb]; intros SB1 SB2 SqC SC;
       reduce_call; rewrite tA, tB, tC;
       rewrite !ld_ok_true by lia; cbn [andb fr_out fr_ld fr_m fr_n fr_val];
       unfold doc_dsyr2k, doc_tab; cbn [is_up is_tr cflag_eqb negb];
       f_equal; f_equal;
       replace (fstore (rm_s2 C) (rm_s1 C) (rm_s1 C)) with (fstore (rm_s2 C) (rm_s2 C) (rm_s1 C))
-        by (rewrite SC2, SC1; reflexivity);
+        by (rewrite SqC; reflexivity);
       apply fstore_rowmajor; try exact lC;
       intros i j Hi Hj; rewrite in_tri_swap; cbn [negb]; rewrite (fent_rent C) by exact tC;
       (destruct (in_tri _ i j); [|reflexivity]);
       unfold BlasModel.mmul;
-      rewrite ?SB1, ?SB2, <- ?Sq;
+      rewrite ?SB1, ?SB2;
       match goal with
       | |- alpha * sum_n ?k ?f1 + alpha * sum_n ?k ?f2 + ?c = alpha * sum_n ?k ?g1 + alpha * sum_n ?k ?g2 + ?c =>
         replace (sum_n k f1) with (sum_n k g1);
@@ -319,49 +318,26 @@ Section BlasProofs.
   Qed.
 End BlasProofs.
 
-(* ---------------------------------------------------------------- the k dimension of dsyrk / dsyr2k *)
-(* fff_blas_dsyrk passes k = A->size1 for NoTrans (A->size2 for Trans), i.e. the ROW
-   count n of op(A) instead of its column count; for op(A) = A = [1 2 3] (1 x 3) the
-   documented result A A^T = 14 is not what the call computes (it computes 1: the sum
-   is cut after n = 1 terms).  Same for dsyr2k. *)
-Lemma dsyrk_kdim_witness :
-  zcall_dsyrk CblasUpper CblasNoTrans 1%Z (zm 1 3 [1; 2; 3]%Z) 0%Z (zm 1 1 [0%Z]) = Some (OpC, [1%Z])
+(* ---------------------------------------------------------------- non-square dsyrk / dsyr2k, concretely *)
+(* op(A) = A = [1 2 3] (1 x 3): A A^T = 14 (before the fix of the k dimension in fff_blas.c the
+   call computed 1: the sum was cut after n = 1 terms). *)
+Definition zdoc_dsyr2k := doc_dsyr2k Z 0%Z Z.add Z.mul.
+Lemma dsyrk_nonsquare_example :
+  zcall_dsyrk CblasUpper CblasNoTrans 1%Z (zm 1 3 [1; 2; 3]%Z) 0%Z (zm 1 1 [0%Z]) = Some (OpC, [14%Z])
   /\ zdoc_dsyrk CblasUpper CblasNoTrans 1%Z (zm 1 3 [1; 2; 3]%Z) 0%Z (zm 1 1 [0%Z]) = [14%Z].
 Proof. split; vm_compute; reflexivity. Qed.
 
-Definition zdoc_dsyr2k := doc_dsyr2k Z 0%Z Z.add Z.mul.
-Lemma dsyr2k_kdim_witness :
-  zcall_dsyr2k CblasUpper CblasNoTrans 1%Z (zm 1 2 [1; 2]%Z) (zm 1 2 [3; 4]%Z) 0%Z (zm 1 1 [0%Z]) = Some (OpC, [6%Z])
-  /\ zdoc_dsyr2k CblasUpper CblasNoTrans 1%Z (zm 1 2 [1; 2]%Z) (zm 1 2 [3; 4]%Z) 0%Z (zm 1 1 [0%Z]) = [22%Z].
+Lemma dsyr2k_nonsquare_example :
+  zcall_dsyr2k CblasLower CblasTrans 1%Z (zm 2 1 [1; 2]%Z) (zm 2 1 [3; 4]%Z) 0%Z (zm 1 1 [0%Z]) = Some (OpC, [22%Z])
+  /\ zdoc_dsyr2k CblasLower CblasTrans 1%Z (zm 2 1 [1; 2]%Z) (zm 2 1 [3; 4]%Z) 0%Z (zm 1 1 [0%Z]) = [22%Z].
 Proof. split; vm_compute; reflexivity. Qed.
 
-Theorem dsyrk_kdim_refuted :
-  exists u t alpha beta (A C : zrmat),
-    rm_s1 C = rm_s2 C /\ rm_s1 C = (if is_tr t then rm_s2 A else rm_s1 A) /\
-    zcall_dsyrk u t alpha A beta C <> Some (OpC, zdoc_dsyrk u t alpha A beta C).
-Proof.
-  exists CblasUpper, CblasNoTrans, 1%Z, 0%Z, (zm 1 3 [1; 2; 3]%Z), (zm 1 1 [0%Z]).
-  split; [reflexivity|]. split; [reflexivity|].
-  destruct dsyrk_kdim_witness as [-> ->]. discriminate.
-Qed.
-
-Theorem dsyr2k_kdim_refuted :
-  exists u t alpha beta (A B C : zrmat),
-    rm_s1 C = rm_s2 C /\ rm_s1 C = (if is_tr t then rm_s2 A else rm_s1 A) /\
-    rm_s1 B = rm_s1 A /\ rm_s2 B = rm_s2 A /\
-    zcall_dsyr2k u t alpha A B beta C <> Some (OpC, zdoc_dsyr2k u t alpha A B beta C).
-Proof.
-  exists CblasUpper, CblasNoTrans, 1%Z, 0%Z, (zm 1 2 [1; 2]%Z), (zm 1 2 [3; 4]%Z), (zm 1 1 [0%Z]).
-  repeat (split; [reflexivity|]).
-  destruct dsyr2k_kdim_witness as [-> ->]. discriminate.
-Qed.
-
 (* ---------------------------------------------------------------- the substitution does solve the system *)
-(* doc_dtrsv / doc_dtrsm are stated through forward substitution with an uninterpreted
-   division.  When the division is exact on the diagonal (a field; or Z with a +-1
-   diagonal as in the correspondence), forward substitution solves the lower-triangular
-   system.  (The upper case is the same algorithm on reversed indices - solve_upper;
-   the statement "op(A) X = alpha B" for it is not proved here.) *)
+(* doc_dtrsv / doc_dtrsm are stated through forward / back substitution with an
+   uninterpreted division.  When the division is exact on the diagonal (a field; or Z
+   with a +-1 diagonal as in the correspondence), the substitution solves the triangular
+   system: row i of T x = b, summed over the referenced triangle (columns 0..i for a
+   lower, columns i..n-1 for an upper triangular T). *)
 Section SolveCorrect.
   Variable R : Type.
   Variables (r0 r1 : R) (radd rmul rsub : R -> R -> R) (ropp : R -> R).
@@ -395,5 +371,40 @@ Section SolveCorrect.
       rewrite app_nth2 by lia. rewrite Hlen, Nat.sub_diag. cbn [nth].
       rewrite Hdiv by lia. ring.
     - rewrite Hpre by lia. apply IH; [|lia]. intros k y Hk. apply Hdiv. lia.
+  Qed.
+  Local Notation solve_upper := (solve_upper R r0 radd rmul rsub rdiv).
+  Local Notation trisolve := (trisolve R r0 radd rmul rsub rdiv).
+
+  (* back substitution: sum over columns n-1, n-2, ..., i of row i *)
+  Theorem bwd_solves_upper (T : fm R) (b : nat -> R) n :
+    (forall i y, (i < n)%nat -> T i i * rdiv y (T i i) = y) ->
+    forall i, (i < n)%nat ->
+      sum_n (n - i) (fun m => T i (n - 1 - m)%nat * solve_upper n T b (n - 1 - m)%nat) = b i.
+  Proof.
+    intros Hdiv i Hi.
+    pose (T' := fun p q : nat => T (n - 1 - p)%nat (n - 1 - q)%nat).
+    pose (b' := fun p : nat => b (n - 1 - p)%nat).
+    assert (Hdiv' : forall k y, (k < n)%nat -> T' k k * rdiv y (T' k k) = y).
+    { intros k y Hk. unfold T'. apply Hdiv. lia. }
+    pose proof (fwd_solves_lower T' b' n Hdiv' (n - 1 - i)%nat ltac:(lia)) as H.
+    replace (S (n - 1 - i)) with (n - i)%nat in H by lia.
+    unfold b' in H at 2. replace (n - 1 - (n - 1 - i))%nat with i in H by lia.
+    rewrite <- H. apply (sum_n_ext R r0 radd). intros m Hm.
+    unfold BlasModel.solve_upper, BlasModel.solve_lower. fold T' b'.
+    replace (n - 1 - (n - 1 - m))%nat with m by lia.
+    unfold T' at 2. replace (n - 1 - (n - 1 - i))%nat with i by lia. reflexivity.
+  Qed.
+
+  (* both cases: row i of T x = b over the referenced triangle *)
+  Theorem trisolve_solves (upper : bool) (T : fm R) (b : nat -> R) n :
+    (forall i y, (i < n)%nat -> T i i * rdiv y (T i i) = y) ->
+    forall i, (i < n)%nat ->
+      (if upper
+       then sum_n (n - i) (fun m => T i (n - 1 - m)%nat * trisolve true n T b (n - 1 - m)%nat)
+       else sum_n (S i) (fun l => T i l * trisolve false n T b l)) = b i.
+  Proof.
+    intros Hdiv i Hi. destruct upper.
+    - cbn [BlasModel.trisolve]. now apply bwd_solves_upper.
+    - cbn [BlasModel.trisolve]. unfold BlasModel.solve_lower. now apply fwd_solves_lower.
   Qed.
 End SolveCorrect.
